@@ -17,13 +17,19 @@ class Proj:
     def __init__(self, rng):
         self.rng = rng
         self.files = {}      # rel -> (code, comment, blank, ext or None)
+        self.ign = {}        # rel -> number of lines under an ignore-next directive (the directive is one of the comments)
         self.dirs = set(["."])
 
-    def add_file(self, rel, code, comment, blank):
+    def add_file(self, rel, code, comment, blank, ignored=0):
         name = rel.rsplit("/", 1)[-1]
         ext = name.rsplit(".", 1)[1] if "." in name.strip(".") and not name.endswith(".") else None
         if name.startswith(".") and name.count(".") == 1:
             ext = None
+        if ignored and ext in EXT_LANG:
+            comment += 1
+            self.ign[rel] = ignored
+        else:
+            self.ign.pop(rel, None)
         self.files[rel] = (code, comment, blank, ext)
         d = rel
         while "/" in d:
@@ -33,8 +39,13 @@ class Proj:
     def body(self, rel):
         code, comment, blank, ext = self.files[rel]
         pre = EXT_LANG.get(ext, "//")
-        lines = ["x%d = %d" % (i, i) for i in range(code)] + [pre + " c%d" % i for i in range(comment)] + [""] * blank
+        k = self.ign.get(rel, 0)
+        lines = ["x%d = %d" % (i, i) for i in range(code)] + [pre + " c%d" % i for i in range(comment - (1 if k else 0))] + [""] * blank
         self.rng.shuffle(lines)
+        if k:
+            # lines the file itself takes out of every count, whatever the counting mode
+            at = self.rng.randint(0, len(lines))
+            lines[at:at] = [pre + " sloc-guard:ignore-next %d" % k] + ["ig%d = %d" % (i, i) for i in range(k)]
         return "".join(l + "\n" for l in lines)
 
 
@@ -49,7 +60,7 @@ def gen_project(rng, lim):
         size = max(0, size)
         comment = rng.choice([0, 0, 1, 3])
         blank = rng.choice([0, 0, 2])
-        p.add_file(d + nm, size, comment, blank)
+        p.add_file(d + nm, size, comment, blank, ignored=rng.choice([0, 0, 0, 1, 3, lim]))
     return p
 
 
@@ -112,7 +123,7 @@ def toml_of(c):
 def gen_flags(rng, lim):
     f = {"max_lines": None, "ext": None, "exclude": [], "warn_only": rng.random() < 0.15, "wae": rng.random() < 0.2,
          "no_gitignore": rng.random() < 0.2, "count_comments": rng.random() < 0.15, "count_blank": rng.random() < 0.1,
-         "baseline": rng.random() < 0.35, "warn_threshold": None}
+         "baseline": rng.random() < 0.35, "warn_threshold": None, "fail_fast": rng.random() < 0.15}
     if rng.random() < 0.2:
         f["max_lines"] = rng.choice([lim - 1, lim + 1, 1])
     if rng.random() < 0.15:
@@ -350,6 +361,8 @@ def cli_args(flags, bl_path):
         a += ["--warn-threshold", str(flags["warn_threshold"])]
     if flags["baseline"]:
         a += ["--baseline", bl_path]
+    if flags.get("fail_fast"):
+        a.append("--fail-fast")
     return a
 
 
@@ -393,7 +406,7 @@ def run(ctx):
                             baseline["." if d == "." else "./" + d] = {"type": "structure", "violation_type": rng.choice(["files", "dirs"]), "count": 9}
                     json.dump({"version": 2, "files": baseline}, open(bl_path, "w"))
                 facts, sres = oracle(proj, cfg, flags, glob, baseline)
-                rc, out, err = sb.run(exe, cli_args(flags, bl_path), env={"RAYON_NUM_THREADS": "2"})
+                rc, out, err = sb.run(exe, cli_args(flags, bl_path), env={"RAYON_NUM_THREADS": "1" if flags.get("fail_fast") else "2"})
                 evals += 1
                 mo, _, _ = run_lines(model, [model_line(facts, sres, flags, cfg, baseline)])
                 if not mo:
@@ -416,6 +429,11 @@ def run(ctx):
                 hist["rules%d" % len(cfg["rules"])] = hist.get("rules%d" % len(cfg["rules"]), 0) + 1
                 if any(s != "passed" for (_, _, s) in cres):
                     nontrivial.add(json.dumps([toml_of(cfg), sorted(proj.files.items()), sorted(flags.items(), key=str)], default=str))
+                if flags.get("fail_fast") and rc == mexit and all(x in mres for x in cres):
+                    # fail-fast may stop early: what it reports must be part of the full answer and the
+                    # exit code must be the full run's (C11 decides the rest)
+                    hist["fail_fast"] = hist.get("fail_fast", 0) + 1
+                    continue
                 if (cres != mres or rc != mexit) and cfg["structure"]:
                     # the recorded finding: the structure-aware scanner also applies excludes to bare names
                     qf, qs = oracle(proj, cfg, flags, glob, baseline, basename_reading=True)
